@@ -338,3 +338,22 @@ _ROUND8 = {
 }
 for _k, _v in _ROUND8.items():
     CLAIMS[_k]['decides'] += _v
+
+# clauses added in session 4: coverage-driven rules, validation round 10 and the defects found in it (DESIGN.md 11.10)
+_ROUND10 = {
+    'C01': ' RealDiskInterface::Stat answers "missing" (0) only for ENOENT / ENOTDIR, -1 with a message for every other failure, and keeps the nanoseconds of st_mtim.',
+    'C02': ' A remembered build-log entry (the cache object that answers later calls without looking again) is handed to the check of one output only: it is selected by the loop variable that selects the output.',
+    'C04': ' Inside the plan, EdgeFinished(edge, kEdgeSucceeded) for an edge that did not run is reached only behind Edge::AllInputsReady().',
+    'C05': ' From waitpid() to the builder: TryFinish waits for its own pid, answers "alive" only for a 0 result, stores ParseExitStatus of the very status waitpid filled in; exit_status_ has no other writer; Finish() blocks; Done() is "reaped" for console children and "pipe closed" for the others (truth table); NextFinished() returns null or the front element and pops when the queue is not empty. ParseExitStatus(exited with code c) evaluates to c for every c in 0..255.',
+    'C06': ' The POSIX jobserver client: an explicit slot only from a read() of exactly one byte and carrying that byte, the implicit slot only while its flag is set (cleared on that path), Release writes the slot\'s own byte for every valid explicit slot (EINTR retried) and sets the flag for the implicit one, the fifo is opened O_NONBLOCK. RealCommandRunner::Abort stops the commands before it returns their tokens.',
+    'C07': ' SIGINT/SIGTERM/SIGHUP are, each of them, blocked, handled by the flag-setting handler, looked for among the pending signals (and then consumed), restored at the end and recognised in a child\'s wait status (decided by evaluating ParseExitStatus for every "killed by signal s" status); the flag is cleared only before the wait, which runs under the saved mask. Subprocess::Start gives a piped child its own process group and every child the saved signal mask, only ever adds flag bits, and closes the parent\'s copy of the write end after the spawn.',
+    'C11': ' A dyndep entry is applied to its edge once per load (an edge that lists the file several times among its inputs is updated once). Nothing is accepted from a dyndep file before ParseDyndepVersion ran (must-pass, not a flag).',
+    'C12': ' EvalString: Evaluate walks the whole token list, appends RAW text verbatim and the environment\'s value for every other token; AddText keeps its text on every path; AddSpecial moves pending single-token text into the list before the variable.',
+    'C13': ' Unsigned position arithmetic also through a local (`size_t first = col - 36; s.substr(first, ..)`), through a decrement (`--pos` later used as a subscript) and through int / size_t mixes.',
+    'C14': ' A name that is compared with node paths / build-log keys instead of being interned is canonical too: every output a depfile names before it is matched, the arguments of `-t restat` before BuildLog::Restat.',
+    'C17': ' State::Reset() restores "never scanned" for every node (mtime_, exists_, dirty_) and edge (outputs_ready_, deps_loaded_, mark_) over the whole of paths_ / edges_. The driver of the scan does not walk its validation worklist up to a size taken before the loop while the loop body extends it.',
+    'C19': ' In real_main no tool dispatch is reachable from NinjaMain::RebuildManifest / RunBuild within one pass of the start-up loop.',
+    'C20': ' For a failed command nothing but the QUIET verbosity keeps BuildEdgeFinished from printing the FAILED line and the command line. The pipe handed to a command as stdout/stderr is created blocking. The output is printed at sites that are alternatives, from text derived from the `output` parameter alone.',
+}
+for _k, _v in _ROUND10.items():
+    CLAIMS[_k]['decides'] += _v
